@@ -398,7 +398,7 @@ func (g *gen) hsRead(x *ast.AssignStmt, args []ast.Expr, rest []ast.Stmt, st *hs
 	st.en.obj[bobj] = v
 	st.nInput++
 	in2 := fmt.Sprintf("input_%d", st.nInput)
-	errTerm := fmt.Sprintf("HsErr %s \"read error\"", st.writtenTerm())
+	errTerm := fmt.Sprintf("HsErr %s \"read error\"%%string", st.writtenTerm())
 	prev := st.input
 	st.input = in2
 	body := g.hsStmts(rest[1:], st)
@@ -410,7 +410,7 @@ func (g *gen) hsReturn(x *ast.ReturnStmt, st *hsState) string {
 		g.t.failf(x, "handshake return with %d results", len(x.Results))
 	}
 	if isIdent(x.Results[0], "nil") {
-		return fmt.Sprintf("HsErr %s %s", st.writtenTerm(), strconv.Quote(g.errText(x.Results[1])))
+		return fmt.Sprintf("HsErr %s %s", st.writtenTerm(), strconv.Quote(g.errText(x.Results[1]))+"%string")
 	}
 	if !isIdent(x.Results[1], "nil") {
 		g.t.failf(x, "return of both a peer and an error")
@@ -608,10 +608,10 @@ func (g *gen) emitProtoTable(name string) {
 			if i := strings.LastIndex(n, "."); i >= 0 {
 				n = n[i+1:]
 			}
-			rows = append(rows, fmt.Sprintf("(%s, %s)", strconv.Quote(n), v))
+			rows = append(rows, fmt.Sprintf("(%s%%string, %s)", strconv.Quote(n), v))
 		}
 	}
-	fmt.Fprintf(g.out, "\n(* %s *)\nDefinition %s : list (string * Z) :=\n  [%s].\n", g.sig(fd), snake(name), strings.Join(rows, "; "))
+	fmt.Fprintf(g.out, "\n(* %s *)\nDefinition %s : list (String.string * Z) :=\n  [%s].\n", g.sig(fd), snake(name), strings.Join(rows, "; "))
 }
 
 // emitRouterServer translates RawSocketServer.handleRawSocket: the arguments
